@@ -150,6 +150,37 @@ HISTORY = {
     "forms (partial of coroutine function / async generator / callable objects, bound async methods); re-created after the fix 2e69079",
     "C20_r9_representable_by_concrete_type_list": "missed at first (routines passed as arguments were a plain function, a bound method and a "
     "builtin); caught after a memoized function and raw staticmethod / classmethod objects were added to the arguments",
+    "C01_r10_precondition_groups_of_the_last_base_only": "missed at first by C01 (its hierarchies were chains; C04 caught it); caught after two-base "
+    "joins whose bases both state preconditions were added to C01's programs",
+    "C03_r10_builtin_constructor_takes_the_new_wrapper": "missed at first (no class derived from a built-in with a constructor slot of its own); "
+    "caught after list / dict / set / deque / bytearray / Exception sub-classes with invariants were added",
+    "C05_r10_placeholders_resolved_only_when_flagged": "missed at first (a condition always asked for _ARGS / _KWARGS next to the factory); caught "
+    "after functions whose error factory is the only one to ask, and overrides that inherit the asking condition",
+    "C06_r10_builtin_named_variables_left_out": "missed at first (only parameters were named like built-ins); caught after module globals named "
+    "like built-ins (input, license) joined the leaves of the grammar",
+    "C07_r10_keyword_only_condition_defaults_forgotten": "missed at first (defaults of conditions were positional-or-keyword); caught after the "
+    "corner conditions with keyword-only defaults named like built-ins / a global (C06 catches it too since half of its condition defaults "
+    "are keyword-only)",
+    "C09_r10_none_from_error_function_trips_assert": "missed at first (the non-exception a factory returned was always a string); caught after "
+    "None, an exception class and 0 were added",
+    "C10_r10_constructor_wrapper_of_the_own_class_always_checks": "missed at first (no explicit self.__init__() from a member); caught after the "
+    "re-initialisation scenario (reset method, property) on a class and on a DBC sub-class inheriting the constructor",
+    "C11_r10_stop_iteration_from_precondition_swallowed": "missed at first (StopIteration was not among the injected kinds); caught after "
+    "StopIteration and AssertionError were added to them",
+    "C12_r10_task_marks_honoured_outside_tasks": "missed at first (callbacks were only scheduled from sync methods after their return); caught after "
+    "call_soon / call_later / add_done_callback callbacks registered from within a suspended async method",
+    "C14_r10_find_checker_stops_at_first_bare_function": "missed at first by C14 (its foreign decorator copied __dict__); caught after its second "
+    "guise (functools.wraps(func, updated=())) on concrete callables",
+    "C15_r10_descriptor_rewrapped_before_enabled_test": "missed at first (decorators were applied to functions only); caught after require / ensure "
+    "applied to a staticmethod object",
+    "C17_r10_locals_anywhere_in_scope_excludes_reuse": "missed at first (all classes of the histories were made at module level); caught after "
+    "fixed re-use histories whose classes are created inside function bodies",
+    "C18_r10_captures_before_preconditions": "missed at first (captures never failed); caught after refused calls are repeated with captures that "
+    "are not defined for refused arguments",
+    "C19_r10_reserved_name_check_memoised_after_first_call": "missed at first (every misuse was the first call of its callable); caught after "
+    "misuse calls that follow valid calls of the same callable",
+    "C20_r10_condition_parameters_cached_per_code_object": "missed at first (every contract had a source text of its own); caught after three "
+    "contracts made by one factory are violated in all six orders",
 }
 
 
